@@ -404,6 +404,11 @@ func AtomToWire(a Atom) any {
 	case 'i':
 		return a.I
 	case 'r':
+		// a database that was made to hold an infinity or a NaN (overflowing
+		// arithmetic) must not take the harness's own JSON encoder down
+		if math.IsInf(a.R, 0) || math.IsNaN(a.R) {
+			return 1e308
+		}
 		return a.R
 	case 'b':
 		return a.B
